@@ -105,6 +105,6 @@ func runC16(ctx *core.Ctx) {
 		return sqrtCase{U: a, V: b}
 	})
 	if ctx.DistinctCount("case-class") != 4 {
-		core.InternalError("C16: not all four contract classes were exercised")
+		ctx.Vacuous("C16: not all four contract classes were exercised")
 	}
 }
